@@ -113,7 +113,7 @@ class Inliner:
 
 
 class Walker:
-    def __init__(self, ctx, fn, atoms, self_adt=None, inline=True):
+    def __init__(self, ctx, fn, atoms, self_adt=None, inline=True, atomic=None):
         self.ctx = ctx
         self.fn = fn
         self.T = ctx.T(fn)
@@ -121,6 +121,7 @@ class Walker:
         self.atoms = atoms
         self.inl = Inliner(ctx)
         self.self_adt = self_adt
+        self.atomic = atomic     # pred(qname): treat this inlined helper call as one opaque call term
         self.unrecognised = []   # (bb, scrutinee) switches nobody could evaluate (informational)
         self._kill_cache = {}
 
@@ -139,18 +140,21 @@ class Walker:
                 return at
         return None
 
-    def truth(self, t, val, killed, depth=0):
-        """True/False/None for a boolean term under valuation `val` (dict atom name -> value)."""
+    def truth(self, t, val, killed, depth=0, known=None):
+        """True/False/None for a boolean term under valuation `val` (dict atom name -> value).
+        `known`: values of multiply-assigned locals established on the walked path."""
         if depth > 8:
             return None
         h = t[0]
+        if h == "var" and known is not None and t[1] in known and isinstance(known[t[1]], bool):
+            return known[t[1]]
         if h == "const":
             return bool(t[1])
         if h == "un" and t[1] == "Not":
-            r = self.truth(t[2], val, killed, depth + 1)
+            r = self.truth(t[2], val, killed, depth + 1, known)
             return None if r is None else (not r)
         if h == "call" and t[1] == "anyhow::__private::not" and len(t[2]) == 1:
-            r = self.truth(t[2][0], val, killed, depth + 1)
+            r = self.truth(t[2][0], val, killed, depth + 1, known)
             return None if r is None else (not r)
         at = self.atom_of(t, ("bool",))
         if at is not None and at.name not in killed:
@@ -262,7 +266,7 @@ class Walker:
             return at, some_payload(t)
         return None
 
-    def edge_filter(self, bb, val, killed):
+    def edge_filter(self, bb, val, killed, known=None):
         """Targets of the switch at bb consistent with the valuation (None = all)."""
         si = self.T.switch_info(bb)
         if si is None:
@@ -271,13 +275,28 @@ class Walker:
         # boolean scrutinee
         labels = set(l for ls in edges.values() for l in ls)
         if labels <= {True, False}:
-            r = self.truth(scrut, val, killed)
+            r = self.truth(scrut, val, killed, 0, known)
             if r is None:
                 self.unrecognised.append((bb, scrut))
                 return None
             return [b for b, ls in edges.items() if r in ls]
         if scrut[0] == "discr":
             x = scrut[1]
+            # a value whose variant is known on this path: an aggregate literal, or a local assigned one
+            kx = x
+            if kx[0] == "call" and kx[1] == "std::ops::Try::branch":
+                kx = kx[2][0]
+            kv = None
+            if kx[0] == "agg" and kx[2] is not None:
+                kv = kx[2]
+            elif kx[0] == "var" and known is not None and isinstance(known.get(kx[1]), tuple):
+                kv = known[kx[1]][1]
+            if kv is not None:
+                if x is not kx:
+                    kv = {"Ok": "Continue", "Some": "Continue", "Err": "Break", "None": "Break"}.get(kv, kv)
+                tg = [b for b, ls in edges.items() if kv in ls]
+                if tg:
+                    return tg
             at = self.atom_of(x, ("opt", "enum"))
             if at is not None and at.name not in killed:
                 v = val[at.name]
@@ -329,23 +348,87 @@ class Walker:
         return ks
 
     # ------------------------------------------------------------ walking
+    def _known_after(self, bb, val, killed, known):
+        """Update the path-known values of locals with the assignments of block bb."""
+        b = self.fn.blocks[bb]
+        if not b["s"]:
+            return known
+        k = dict(known)
+        multi = self.T.defs
+        for s in b["s"]:
+            if s["k"] != "assign" or s["p"].get("pr"):
+                continue
+            l = s["p"]["l"]
+            if len(multi.get(l, ())) < 2:
+                continue
+            r = s["r"]
+            v = None
+            if r["k"] == "use":
+                o = r["o"]
+                if "k" in o and "v" in o["k"] and self.fn.locals[l].hk == "bool":
+                    v = bool(o["k"]["v"])
+                else:
+                    pl = o.get("c") or o.get("m")
+                    if pl is not None and not pl.get("pr") and pl["l"] in k:
+                        v = k[pl["l"]]
+                    elif self.fn.locals[l].hk == "bool":
+                        v = self.truth(self.T.operand(o), val, killed, 0, k)
+            elif r["k"] == "agg" and r["ak"] == "adt" and r.get("def") in ("std::result::Result", "std::option::Option", "std::task::Poll", "std::ops::ControlFlow"):
+                v = ("V", r["variant"])
+            elif self.fn.locals[l].hk == "bool":
+                v = self.truth(self.T.rvalue(r), val, killed, 0, k)
+            if v is None:
+                k.pop(l, None)
+            else:
+                k[l] = v
+        return k
+
     def reachable(self, val, start=0, avoid=frozenset()):
         """Blocks reachable from `start` under the valuation (never entering blocks in `avoid`)."""
         seen = set()
-        st = [(start, frozenset())]
-        seen.add((start, frozenset()))
+        st = [(start, frozenset(), ())]
+        seen.add((start, frozenset(), ()))
         out = set([start])
         while st:
-            bb, killed = st.pop()
+            bb, killed, kn = st.pop()
             k2 = killed | self.kills_in_block(bb)
-            filt = self.edge_filter(bb, val, k2)
-            for lab, tgt in self.cfg.succ[bb]:
+            known = self._known_after(bb, val, k2, dict(kn))
+            filt = self.edge_filter(bb, val, k2, known)
+            t = self.fn.blocks[bb]["t"]
+            if t["k"] == "call" and not t["dest"].get("pr"):
+                known = dict(known)
+                known.pop(t["dest"]["l"], None)
+            succ = self.cfg.succ[bb]
+            if self.atomic is not None and t["k"] == "goto" and "inlined_call" in t and "cont" in t and self.atomic(t["inlined_call"]):
+                # do not walk into the helper: its result is the opaque term call("inlined:<name>", args)
+                term = ("call", "inlined:" + t["inlined_call"], tuple(self.T.operand(a) for a in t["args"]))
+                at = self.atom_of(term, ("bool",))
+                known = dict(known)
+                dl = t["dest"]["l"]
+                # the destination is defined by `dest = move <helper return place>`; terms resolve it to that place
+                dls = {dl}
+                rt = self.T.local(dl)
+                if rt[0] == "var":
+                    dls.add(rt[1])
+                for x in dls:
+                    if at is not None and at.name not in k2 and not t["dest"].get("pr"):
+                        known[x] = val[at.name]
+                    else:
+                        known.pop(x, None)
+                succ = [("goto", t["cont"])]
+            kt = tuple(sorted(known.items(), key=lambda kv: kv[0]))
+            for lab, tgt in succ:
                 if filt is not None and tgt not in filt:
                     continue
                 if tgt in avoid:
                     continue
-                s = (tgt, frozenset(k2))
+                s = (tgt, frozenset(k2), kt)
                 if s not in seen:
+                    if len(seen) > 200000:
+                        # state explosion guard: fall back to forgetting path knowledge
+                        s = (tgt, frozenset(k2), ())
+                        if s in seen:
+                            continue
                     seen.add(s)
                     out.add(tgt)
                     st.append(s)
